@@ -1208,6 +1208,36 @@ def check_as_ref_impls(items):
     walk(items)
 
 
+EXPECTED_SEALED = sorted([
+    ('SealedBlockHashSize', 'BlockHashSize<{ block_hash::FULL_SIZE }>'),
+    ('SealedBlockHashSize', 'BlockHashSize<{ block_hash::HALF_SIZE }>'),
+    ('SealedBlockHashSizes', 'BlockHashSizes<{ block_hash::FULL_SIZE }, { block_hash::FULL_SIZE }>'),
+    ('SealedBlockHashSizes', 'BlockHashSizes<{ block_hash::FULL_SIZE }, { block_hash::HALF_SIZE }>'),
+    ('SealedReconstructionBlockSize', 'ReconstructionBlockSize<{ block_hash::FULL_SIZE }, { block_hash::FULL_SIZE / 4 }>'),
+    ('SealedReconstructionBlockSize', 'ReconstructionBlockSize<{ block_hash::HALF_SIZE }, { block_hash::HALF_SIZE / 4 }>'),
+])
+
+
+def check_sealed_impls(items):
+    """Side condition of the `sizes_ok` / `dual_sizes_ok` preconditions used throughout the contracts: the sealed size traits
+    admit exactly S1 = FULL_SIZE, S2 in {FULL_SIZE, HALF_SIZE}, (SZ_BH, SZ_RLE) in {(FULL, FULL/4), (HALF, HALF/4)}
+    (FULL_SIZE = 64, HALF_SIZE = 32: Kani harness axiom_block_hash_consts).  Checked on every run against the impl list
+    of the current sources; any other impl makes every unit UNDECIDED."""
+    found = []
+
+    def walk(its):
+        for it in its:
+            if it.kind == 'impl':
+                g, tr, ty, wh = impl_header_info(it.header)
+                if tr and tr.split('::')[-1].startswith('Sealed'):
+                    found.append((tr.split('::')[-1], norm_ws(ty)))
+            if it.kind == 'mod' and it.children:
+                walk(it.children)
+    walk(items)
+    if sorted(found) != EXPECTED_SEALED:
+        raise Undecided('side condition of sizes_ok: the sealed size-trait impls of the sources are %r, expected %r' % (sorted(found), EXPECTED_SEALED))
+
+
 def assemble(unit, src):
     items = parse_items(src, 0, len(src))
     plan = collect_unit(items, unit)
@@ -1227,6 +1257,7 @@ def assemble(unit, src):
             for m in re.finditer(r'\bpub\s+(?:open\s+|closed\s+|uninterp\s+)?(?:spec|proof|exec)?\s*(?:fn|const|struct|enum|trait|type)\s+(\w+)', blk):
                 emitted_paths.add(mp + '::' + m.group(1))
     check_as_ref_impls(items)
+    check_sealed_impls(items)
     out = Out()
     log = []
     out.emit('// GENERATED by tools/extract.py from the rustc-expanded working tree of /repo.\n'
